@@ -1,0 +1,8 @@
+//go:build verif
+
+package ruleguard
+
+// Verification hooks for the comment-rule checks (build tag `verif`). Not part of the API.
+
+// VerifRegexpHasCaptureGroups exposes regexpHasCaptureGroups.
+func VerifRegexpHasCaptureGroups(pattern string) bool { return regexpHasCaptureGroups(pattern) }
